@@ -3,8 +3,11 @@
    (escape_nexus_token, NewickWriter, NexusTaxonSymbolMapper, NewickReader), character classes from
    Gen/CharClasses.v (regenerated from the source on every run). Spec definitions: Model/C02Spec.v. *)
 From Coq Require Import ZArith List Bool.
-From DV Require Import Model.PyPrims Gen.CharClasses Model.Tokenizer Model.Newick Model.C02Spec
-     Proofs.C02Escape Proofs.C02Main.
+From DV Require Import Model.PyPrims Gen.CharClasses Model.Tokenizer Model.Newick Model.C02Spec Model.C02ListSpec
+     Model.C02Nexus Model.C02NexusSpec
+     Model.C02Nexml Model.C02FlagsSpec
+     Proofs.C02Escape Proofs.C02Main Proofs.C02ListMain Proofs.C02NexusDoc Proofs.C02NexusRead Proofs.C02NexusMain
+     Proofs.C02Nexml Proofs.C02NexmlMain Proofs.C02Flags.
 Import ListNotations.
 Open Scope Z_scope.
 
@@ -105,9 +108,153 @@ Theorem escape_single_punct_silent_refuted :
 Proof. exact escape_single_punct_silent_refuted_l. Qed.
 Print Assumptions escape_single_punct_silent_refuted.
 
-(* New finding.  A trailing anonymous leaf without edge length after a named sibling is written as
-   "(a,)" and re-read with one child: the reader creates the node for `,)` only when no node was
-   created before. *)
+(* Tree lists.  A non-empty list of trees over a shared namespace, written as one Newick document
+   (_write_tree_list: one statement per line), is read back by NewickReader into a new namespace as
+   the same list: one result per tree, in order, each with the written rooting state, no comments,
+   and a tree whose taxon numbers name the written labels (resolve ... = norm t); the namespace
+   holds the taxon labels of the document in order of first occurrence (first_occurrences), and a
+   taxon used by several trees is the same member in all of them (expect_trees numbers a repeated
+   label by the position of its first occurrence).
+   Premises: every tree in the domain of newick_roundtrip (wf_tree), the taxa of each tree distinct
+   up to str.lower, the reader's rooting directive consistent with every tree's rooting state, and
+   the property's label condition "distinct from the other labels up to letter case": labels of the
+   document that are equal up to case are equal (case_consistent).
+   The empty list is excluded: it is written as the empty document, which the reader rejects
+   (Proofs/C02ListMain.v empty_treelist). *)
+Theorem treelist_roundtrip :
+  forall (L : Type) (render_len : L -> str) (parse_len : str -> option L) (lower : str -> str),
+    (forall x, parse_len (render_len x) = Some x) ->
+    (forall x, render_len x <> [] /\ forallb numeral_char (render_len x) = true) ->
+  forall (o : rt_opts) (r : option bool) (t : ntree L) (ts : list (option bool * ntree L)),
+    let doc := (r, t) :: ts in
+    forallb (fun rt => wf_tree L o (snd rt)) doc = true ->
+    Forall (fun rt => NoDup (map lower (taxa_order L o (snd rt)))) doc ->
+    Forall (fun rt => rooting_consistent o (fst rt) = true) doc ->
+    case_consistent lower (doc_taxa L o doc) ->
+    let ns := first_occurrences lower (doc_taxa L o doc) in
+    read_newick L parse_len lower (rt_ropts o) [] (write_tree_list L render_len (rt_wopts o) doc)
+      = Ok (fst (expect_trees L lower o doc []), ns)
+    /\ Forall2 (fun rt pr => pr_is_rooted pr = fst rt /\ pr_comments pr = [] /\
+                             resolve L ns (pr_tree pr) = Some (norm L (snd rt)))
+               doc (fst (expect_trees L lower o doc [])).
+Proof. exact treelist_roundtrip_l. Qed.
+Print Assumptions treelist_roundtrip.
+
+(* Suppressing writer options.  With any of suppress_edge_lengths, suppress_leaf_taxon_labels,
+   suppress_internal_taxon_labels, suppress_internal_node_labels set (sflags), the document is the
+   one the default options write for the trees with exactly those attributes erased (erase), so the
+   list read back is the erased list: nothing else is lost.  (with_flags keeps suppress_rooting,
+   unquoted_underscores, preserve_spaces of rt_wopts o; suppress_leaf_node_labels stays True.)
+   Not covered: suppress_leaf_node_labels=False (label and taxon joined into one token),
+   store_tree_weights ([&W ...]), the reader's suppress_edge_lengths. *)
+Theorem treelist_roundtrip_suppressed :
+  forall (L : Type) (render_len : L -> str) (parse_len : str -> option L) (lower : str -> str),
+    (forall x, parse_len (render_len x) = Some x) ->
+    (forall x, render_len x <> [] /\ forallb numeral_char (render_len x) = true) ->
+  forall (o : rt_opts) (f : sflags) (r : option bool) (t : ntree L) (ts : list (option bool * ntree L)),
+    let doc := map (fun rt => (fst rt, erase L f (snd rt))) ((r, t) :: ts) in
+    forallb (fun rt => wf_tree L o (snd rt)) doc = true ->
+    Forall (fun rt => NoDup (map lower (taxa_order L o (snd rt)))) doc ->
+    Forall (fun rt => rooting_consistent o (fst rt) = true) doc ->
+    case_consistent lower (doc_taxa L o doc) ->
+    let ns := first_occurrences lower (doc_taxa L o doc) in
+    read_newick L parse_len lower (rt_ropts o) [] (write_tree_list L render_len (with_flags (rt_wopts o) f) ((r, t) :: ts))
+      = Ok (fst (expect_trees L lower o doc []), ns)
+    /\ Forall2 (fun rt pr => pr_is_rooted pr = fst rt /\ pr_comments pr = [] /\
+                             resolve L ns (pr_tree pr) = Some (norm L (snd rt)))
+               doc (fst (expect_trees L lower o doc [])).
+Proof. exact treelist_roundtrip_suppressed_l. Qed.
+Print Assumptions treelist_roundtrip_suppressed.
+
+(* NEXUS.  A non-empty tree list over a namespace ns, written by NexusWriter as TAXA block + TREES
+   block (Model/C02Nexus.v write_nexus_acc; with or without a TRANSLATE statement,
+   translate_tree_taxa), is read back by NexusReader as: the one namespace with the labels of the TAXA block in the same
+   order, and one tree list over it holding, per tree, the written rooting state, no comments, and
+   the tree in which every taxon-bearing node refers to the POSITION of its label in ns
+   (expectF (pos ns)); resolving the positions gives `norm t`.
+   This includes labels that look like taxon numbers, also a label equal to ANOTHER taxon's 1-based
+   position, with and without TRANSLATE: the symbol mapper looks a tree token up as TRANSLATE token,
+   then as label, and only then as number (Proofs/C02NexusMap.v lookup_plain / lookup_translate), and
+   every tree token the writer emits is found by the first (TRANSLATE) resp. second (label) rule.
+   ns is the namespace in its CURRENT member order (the order of TAXLABELS); accs are the members'
+   accession indices in that order, any duplicate-free list: the TRANSLATE token of member i is
+   accs[i] + 1, so a namespace that was sorted, reversed or had members removed and re-added after
+   its taxa were created is covered (accs = 0,1,2,... gives write_nexus, Proofs/C02NexusMain.v
+   write_nexus_acc_seq).
+   Premises - the exact admissibility condition the code needs:
+   * the namespace labels are admissible labels consistent with the option pair (nlabel_ok),
+     pairwise distinct up to str.lower, and none is a single structural character (F5: a TAXLABELS
+     entry ";" or a TRANSLATE label "," is read as structure);
+   * with TRANSLATE the namespace is not empty ("Translate ;" is rejected, known finding
+     nexus-translate-empty-namespace, see nexus_translate_empty_namespace_refuted);
+   * the tree list is not empty; every tree is in the domain of newick_roundtrip, all its taxa are
+     members of ns and distinct; the reader's rooting directive fits the rooting states;
+   * str.lower leaves digit strings alone, str.upper leaves strings without a-z alone and maps
+     "Translate" to "TRANSLATE" (true of Python; premises because lower/upper are abstract);
+     the two premises on edge-length numerals as in newick_roundtrip. *)
+Theorem nexus_trees_roundtrip :
+  forall (L : Type) (render_len : L -> str) (parse_len : str -> option L) (lower upper : str -> str),
+    (forall x, parse_len (render_len x) = Some x) ->
+    (forall x, render_len x <> [] /\ forallb numeral_char (render_len x) = true) ->
+    (forall n, lower (dec_of_nat n) = dec_of_nat n) ->
+    (forall s, forallb up_fixed s = true -> upper s = s) ->
+    upper wd_Translate = kw_TRANSLATE ->
+  forall (o : rt_opts) (tr : bool) (ns : list str) (accs : list nat) (ts : list (option bool * ntree L)),
+    length accs = length ns -> NoDup accs ->
+    ts <> [] ->
+    NoDup (map lower ns) -> forallb (nlabel_ok o) ns = true -> (forall l, In l ns -> is_struct1 l = false) ->
+    (tr = true -> ns <> []) ->
+    forallb (fun rt => wf_tree L o (snd rt)) ts = true ->
+    (forall l, In l (doc_taxa L o ts) -> In l ns) ->
+    Forall (fun rt => NoDup (map lower (taxa_order L o (snd rt)))) ts ->
+    Forall (fun rt => rooting_consistent o (fst rt) = true) ts ->
+    read_nexus L parse_len lower upper (rt_ropts o) (write_nexus_acc L render_len (rt_wopts o) tr ns accs ts)
+      = NOk ([ns], [(O, map (fun rt => mkPR (fst rt) [] (expectF L o (pos ns) (snd rt))) ts)])
+    /\ Forall (fun rt => resolve L ns (expectF L o (pos ns) (snd rt)) = Some (norm L (snd rt))) ts.
+Proof. exact nexus_trees_roundtrip_l. Qed.
+Print Assumptions nexus_trees_roundtrip.
+
+(* Known finding nexus-translate-empty-namespace on the model: with TRANSLATE and an empty
+   namespace the written document is rejected by the reader. *)
+Theorem nexus_translate_empty_namespace_refuted :
+  read_nexus str parse_num (fun s => s) ascii_upper (rt_ropts rt_default)
+             (write_nexus str (fun x => x) (rt_wopts rt_default) true [] [(None, Nd None None (Some [49]) [])])
+  = NErr ParseErr.
+Proof. exact nexus_translate_empty_ns. Qed.
+Print Assumptions nexus_translate_empty_namespace_refuted.
+
+(* NeXML, element level (partial: the XML text layer - Python's xml library, quoteattr, the "d<k>"
+   rendering of ids, str(float)/float() - is trusted, and tree / tree-list / namespace labels,
+   annotations and int-typed trees are not modelled).  For a tree list over a non-empty namespace ns
+   whose trees only use taxa of ns (tin), NexmlWriter produces an element document d (otu, node,
+   edge and rootedge records with the ids handed out by _get_nexml_id) and NexmlReader rebuilds from
+   d: the namespace labels in order, and per tree the same topology and child order, on every node
+   the position of its taxon in ns (idx), every node label (also on leaves; an empty label reads
+   as none), every edge length including the root edge's (a missing length stays missing), and
+   rooting True for a rooted tree, False for an unrooted one and for an UNDEFINED rooting state
+   (the normalisation the property allows). *)
+Theorem nexml_trees_roundtrip_partial : forall (L : Type) (ns : list str) (ts : list (option bool * ntree L)),
+  ns <> [] -> forallb (fun rt => tin L ns (snd rt)) ts = true ->
+  exists d, write_nexml L ns ts = Some d /\
+    read_nexml L d
+    = XOk (map (fun l => truthy_label (Some l)) ns,
+           map (fun rt => mkPR (Some (match fst rt with Some true => true | _ => false end)) []
+                               (xexpect L ns (snd rt))) ts).
+Proof. exact nexml_trees_roundtrip_partial_l. Qed.
+Print Assumptions nexml_trees_roundtrip_partial.
+
+(* Known finding nexml-empty-namespace on the model: an empty namespace is written as an empty
+   <otus>, which the reader treats as missing (`if not taxon_namespace`). *)
+Theorem nexml_empty_namespace_refuted :
+  option_map (read_nexml str) (write_nexml str [] [(None, Nd None None (Some [49]) [])]) = Some (XErr OtherErr).
+Proof. exact nexml_empty_namespace. Qed.
+Print Assumptions nexml_empty_namespace_refuted.
+
+(* Repaired in the library (e32b705e); kept as a statement about the FORMER form of the reader, which the
+   model still carries as ro_blank_after_comma = false (rt_default): a trailing anonymous leaf
+   without edge length after a named sibling, written "(a,)", was re-read with one child.  The
+   harness selects the form the working tree has by replaying "(a,);"; newick_roundtrip and
+   treelist_roundtrip hold for both forms (rt_bc arbitrary). *)
 Theorem trailing_blank_leaf_refuted :
   exists t : ntree str,
     write_tree_list str (fun x => x) (rt_wopts rt_default) [(None, t)] = [40; 97; 44; 41; 59; 10] /\
